@@ -1,7 +1,7 @@
 (* Property C20 — provider discovery failures fail closed and heal without a
    restart.  Only the property theorems, each closed by `exact`, with Print
    Assumptions beneath.  Model: Model/Discovery.v; monitor: Spec/DiscoverySpec.v;
-   proofs: Proofs/DiscoveryProofs.v; measured constants: gen/params/ParamsDiscovery.v.
+   proofs: Proofs/DiscoveryProofs.v, Proofs/DiscoveryStay.v; measured constants: gen/params/ParamsDiscovery.v.
 
    Two initialisations are modelled: `initialize_pinned` (one GetMetadata, give
    up on error — the code as pinned) and `initialize_retrying` (GetMetadata in a
@@ -9,7 +9,8 @@
    the harness MEASURED on the tree under verification
    (ParamsDiscovery.init_retries_forever).  The healing theorem is about the
    retrying one; C20_heals_current transfers it to the measured tree. *)
-From VF Require Import Base.Prelude Model.Discovery Spec.DiscoverySpec Corr.DiscoveryCorr Proofs.DiscoveryProofs.
+From VF Require Import Base.Prelude Model.Discovery Spec.DiscoverySpec Corr.DiscoveryCorr Proofs.DiscoveryProofs
+  Proofs.DiscoveryStay.
 From VFP Require Import ParamsDiscovery.
 Open Scope Z_scope.
 
@@ -168,4 +169,41 @@ Example C20_nonvacuous :
   /\ check_case (model_case (faults fs) d1 T [mkReq PGated (40 * 1000000); mkReq PExcluded (40 * sec)]
                             [OServe (mkReq PGated sec); OScript [] d2; OShift (61 * 60 * sec); ORefresh;
                              OServe (mkReq PGated sec)]) = true.
+Proof. vm_compute. repeat split. Qed.
+
+(* "Starts serving" means it keeps serving: in a case whose provider script is
+   failures only, followed by a healthy provider with a full document, every
+   request served by the operations that precede the first change of the
+   provider's script -- requests, passages of time (of any length, so across
+   expiry of the cached document), refresh ticks, cache clean-up ticks -- is
+   answered: none gets the closed 503 / 408.  (In the model a refresh against
+   the healthy provider succeeds at its first attempt, where the 5-minute
+   cut-off of discoverProviderMetadata cannot fire, so the endpoints are never
+   lost; no premise beyond those of C20_monitor_model is needed.) *)
+Theorem C20_stays_serving : forall (fs : list fault) (h : doc) (T : Z) (pre : list request) (ops : list op),
+  0 <= T -> budget_ok T = true ->
+  stays_ok (model_case (faults fs) h T pre ops) = true.
+Proof. exact stays_model. Qed.
+Print Assumptions C20_stays_serving.
+
+(* Non-vacuity of the clause: seven failures then a full document; a request,
+   61 minutes (the cached document expires), a refresh tick, two more requests:
+   the clause applies, judges three requests (302, 302, 200) and holds; and it
+   can fail: a 503 without forward / Location / cookie is what it rejects, and
+   the same case with such an answer recorded for the first request fails it. *)
+Example C20_stays_nonvacuous :
+  let fs := [FRefused; FReset; F500; F503; FMalformed; FTruncated; FSlow] in
+  let d1 := mkDoc 11 12 13 14 15 16 in
+  let c := model_case (faults fs) d1 (1 * sec) []
+             [OServe (mkReq PGated sec); OShift (61 * 60 * sec); ORefresh;
+              OServe (mkReq PGated sec); OServe (mkReq PExcluded sec)] in
+  let bad := mkOq PGated sec 503 false None false 1 true true in
+  heal_applies c = true
+  /\ length (flat_map reqs_of_step (before_script (dc_steps c))) = 3%nat
+  /\ map oq_status (flat_map reqs_of_step (before_script (dc_steps c))) = [302; 302; 200]
+  /\ stays_ok c = true
+  /\ is_closed bad = true
+  /\ stays_ok (mkDc 0 false (dc_timeout c) (dc_script c) (dc_healthy c) [] (dc_ready_ms c) (dc_ready_loc c) 0
+                    (dc_init_hits c)
+                    [(OServe (mkReq PGated sec), Some bad, mkOs 8 true d1 true 60)] (dc_served c)) = false.
 Proof. vm_compute. repeat split. Qed.
